@@ -40,7 +40,9 @@ function runScript(req) {
   sandbox.console.info = sandbox.console.log;
   const ctx = vm.createContext(sandbox);
   try {
-    const r = vm.runInContext('"use strict";\n' + req.src, ctx, { timeout: req.timeout || 3000 });
+    // no vm timeout by default: it costs ~20 ms per run (watchdog thread). Generated programs terminate by
+    // construction and tsrun runs first under a step budget; a hang is caught by the supervisor watchdog.
+    const r = req.timeout ? vm.runInContext('"use strict";\n' + req.src, ctx, { timeout: req.timeout }) : vm.runInContext('"use strict";\n' + req.src, ctx);
     let s;
     if (typeof r === 'string') s = r; else s = '<non-string:' + typeof r + '>';
     return { ok: s, log };
